@@ -5,7 +5,7 @@ from vlib import Case, hx
 
 HARNESS = "sim_driver"
 LEAN_MODULES = ["ViaProofs.C15"]
-REQUIRED_THEOREMS = ['Via.C15_body_expect', 'Via.C15_chunk_expect', 'Via.C15_at_most_once', 'Via.C15_not_for_http10', 'Via.C15_reset']
+REQUIRED_THEOREMS = ['Via.C15_body_expect', 'Via.C15_chunk_expect', 'Via.C15_at_most_once', 'Via.C15_not_for_http10', 'Via.C15_reset', 'Via.C15_continue_keeps_connection']
 LEVEL = "proof"
 TRUSTED_BASE = S.SIM_TRUSTED
 ASSUMPTIONS = S.SIM_ASSUMPTIONS
@@ -38,6 +38,8 @@ def generate(tier, rng):
             hdrs = [gen_sim.HOST]
             if expect:
                 hdrs.append((b"Expect", expect))
+            if j == nreq - 1 and version == b"1.1" and rng.chance(1, 3):
+                hdrs.append((b"Connection", b"close"))
             if framing == "cl":
                 hdrs.append((b"Content-Length", b"4"))
                 head = gen_sim.req(b"POST", b"/e", version, hdrs)
@@ -61,7 +63,8 @@ def generate(tier, rng):
                 lines.append("app-send c0 st=200 b=6f6b")
             lines.append("wdone c0")
         lines.append("state")
-        cases.append(Case("c15-%d" % i, lines, {"opts": o, "expect15": exp, "tags": [o["policy"], "conth%s" % o["conth"]]}))
+        cases.append(Case("c15-%d" % i, lines, {"opts": o, "expect15": exp, "answered15": nreq,
+                                                "tags": [o["policy"], "conth%s" % o["conth"]]}))
     return cases
 
 
@@ -98,7 +101,18 @@ def classify(case, fail, il, findings):
 
 
 def oracle(case, out):
-    return S.oracle_c15(case, S.cut(case, out))
+    f = S.oracle_c15(case, S.cut(case, out))
+    if f:
+        return f
+    n = case.meta.get("answered15")
+    if n is not None and not case.meta.get("kf") and case.meta.get("opts", {}).get("conth") in (0, "0"):
+        # with the automatic 100 Continue every request's body is then received and the request delivered and answered
+        got = sum(1 for l in out if l.startswith("ev request "))
+        wires = sum(1 for l in out if l.startswith("io wire ") and ("485454502f312e3120323030" in l or "485454502f312e3020323030" in l))
+        if got != n or wires != n:
+            return ("%d requests (with and without Expect: 100-continue) were sent one after the other, %d were delivered after "
+                    "their body arrived and %d were answered with 200" % (n, got, wires))
+    return None
 
 
 def nontrivial(case, out):
